@@ -55,7 +55,9 @@ func c17Values(r *fw.Rng, n int) []c17Value {
 		out = append(out, c17Value{"flt", refmodel.Val(fmt.Sprintf("f:%08x", math.Float32bits(f)))})
 	}
 	// leaf-lists of 1..5 elements
-	ll := func(leaf string, elems ...string) { out = append(out, c17Value{leaf, refmodel.Val("l:" + strings.Join(elems, "\x1f"))}) }
+	ll := func(leaf string, elems ...string) {
+		out = append(out, c17Value{leaf, refmodel.Val("l:" + strings.Join(elems, "\x1f"))})
+	}
 	ll("ll-str", "s:a")
 	ll("ll-str", "s:a", "s:b", "s:c")
 	ll("ll-str", "s:", "s:x")
@@ -347,11 +349,11 @@ func c17EndToEnd(c *fw.Case, vals []c17Value) {
 
 func init() {
 	fw.Register(&fw.Check{ID: "C17", Level: "exploration",
-		Technique: "runtime monitoring of the value helpers (v2, v3) and of the whole stack: per-type reference encoders; every type x width at its extremes + PRNG values: client value == stored value == device / PROTO value; JSON type and digits of the RFC 7951 document (ints wider than 32 bits as strings); end-to-end typed Sets through handler, controllers, plugin document, device and Get",
-		Rule:      "case 0..3 = pure level over the extreme-value table (each with 600 further PRNG values); cases 4.. = end-to-end histories of 8 synchronous Sets of typed leaves; distinct_nontrivial = distinct (type, width, leaf-list?) kinds exercised",
+		Technique:   "runtime monitoring of the value helpers (v2, v3) and of the whole stack: per-type reference encoders; every type x width at its extremes + PRNG values: client value == stored value == device / PROTO value; JSON type and digits of the RFC 7951 document (ints wider than 32 bits as strings); end-to-end typed Sets through handler, controllers, plugin document, device and Get",
+		Rule:        "case 0..3 = pure level over the extreme-value table (each with 600 further PRNG values); cases 4.. = end-to-end histories of 8 synchronous Sets of typed leaves; distinct_nontrivial = distinct (type, width, leaf-list?) kinds exercised",
 		Assumptions: []string{"float values are compared bit-exact at float32 (what the gNMI API version in use carries); decimals numerically as (digits, precision)", "value kinds listed as known findings are not fed into the end-to-end part"},
 		DistinctSet: "value_kind", CaseTimeout: 300e9,
-		Floors:      map[string]int64{"values": 2500, "json_documents": 2000, "end_to_end_values": 200},
+		Floors: map[string]int64{"values": 2500, "json_documents": 2000, "end_to_end_values": 200},
 		Cases: func(tier string) int {
 			if tier == "thorough" {
 				return 400
